@@ -31,7 +31,7 @@ tiers: Dict[str, Dict[str, Any]] = {
 }
 
 LOCS = ["plain", "deep", "space", "relative", "in_snippets"]
-HISTORIES = ["absent", "empty", "other", "longer"]
+HISTORIES = ["absent", "empty", "other", "longer", "crlf", "cr", "same", "space_tail"]
 SNIPPET_VARIANTS = ["min", "min", "extra_valid", "invalid2", "invalid3"]
 
 _CASES: Dict[str, List[dict]] = {}
@@ -76,8 +76,8 @@ def describe() -> dict:
             "corpus incl. rejected models, or one aas_core_meta.v3 x target case) executed in "
             "3 (quick) / 12 (thorough) fresh interpreters that differ in PYTHONHASHSEED, heap "
             "junk, snippets listing order, output-dir location (plain/deep/space+unicode/"
-            "relative/beneath the snippets dir), output-dir history (absent/empty/foreign files/same-named longer "
-            "files) and position of the case in the process; compared: rc, stdout up to the "
+            "relative/beneath the snippets dir), output-dir history (absent/empty/foreign files/same-named files that are longer, "
+            "identical, or equal up to CRLF / CR / trailing blanks) and position of the case in the process; compared: rc, stdout up to the "
             "output path, stderr, sha256 of every file the run wrote; one evaluation = one execution of a case in one interpreter. distinct = distinct "
             "cases whose results were compared across >= 2 interpreters."
         ),
@@ -185,7 +185,7 @@ def child_main(spec_path: str) -> int:
             out_abs = sb.path("out", sub)
             if loc == "in_snippets":
                 out_abs = os.path.join(sdir, "generated", "o")
-                if hist in ("other", "longer"):
+                if hist not in ("absent", "empty"):
                     # files already in the output dir would be *snippets* here, i.e. a different
                     # input, not a different history of the same input
                     hist = "empty"
@@ -196,14 +196,24 @@ def child_main(spec_path: str) -> int:
                 repo.write_tree(out_abs, {"leftover.txt": "left over\n" * 50,
                                           "src/leftover.cpp": "// x\n", "schema.json": "{" * 9000,
                                           "schema.xsd": "<" * 9000})
-            elif hist == "longer":
+            elif hist in ("longer", "crlf", "cr", "same", "space_tail"):
+                # same-named files from an "earlier generation": longer, or equal up to line
+                # endings / trailing blanks (a checkout with autocrlf, an editor), or identical
                 scratch = sb.path("out", "scratch")
                 os.makedirs(scratch)
                 repo.run_generator(model_path, case["target"], sdir, scratch, cache=False)
                 for rel in repo.hash_tree(scratch):
                     with kernel.real_open(os.path.join(scratch, rel), "rb") as f:
                         data = f.read()
-                    repo.write_tree(out_abs, {rel: data + b"\n/* stale tail */\n" * 40})
+                    if hist == "longer":
+                        data = data + b"\n/* stale tail */\n" * 40
+                    elif hist == "crlf":
+                        data = data.replace(b"\r\n", b"\n").replace(b"\n", b"\r\n")
+                    elif hist == "cr":
+                        data = data.replace(b"\r\n", b"\n").replace(b"\n", b"\r")
+                    elif hist == "space_tail":
+                        data = data.replace(b"\n", b" \n") + b"\n"
+                    repo.write_tree(out_abs, {rel: data})
                 shutil.rmtree(scratch)
             if loc == "relative":
                 os.chdir(sb.path("out"))
